@@ -380,6 +380,24 @@ def _defaults(prog: Program, run: Run) -> None:
         if isinstance(x, ast.Assign) and isinstance(x.value, ast.ListComp) and "subparams" in \
                 ast.unparse(x.value) and ".short_name" in ast.unparse(x.value.elt):
             nl = x.targets[0].id if isinstance(x.targets[0], ast.Name) else None
+            # value_list is parallel to the FULL subparams list (simple and complex ones): the
+            # names must be taken from that list itself, not from a filtered / reordered copy
+            gen = x.value.generators[0]
+            it = gen.iter
+            if isinstance(it, ast.Name):
+                defs = [y for y in walk_no_nested(fn) if isinstance(y, ast.Assign) and
+                        isinstance(y.targets[0], ast.Name) and y.targets[0].id == it.id]
+                if len(defs) == 1:
+                    it = defs[0].value
+            if gen.ifs or len(x.value.generators) != 1 or not (
+                    isinstance(it, ast.Attribute) and it.attr == "subparams"):
+                run.violation(R, "ComparamInstance.get_subvalue", "subvalue-index-filtered",
+                              f"`{ast.unparse(x.value)[:100]}` takes the names from a filtered or "
+                              "derived list, but the index found in it is applied to the value "
+                              "list, which is parallel to ALL sub-parameters (simple and complex "
+                              "ones): values behind a nested COMPLEX-COMPARAM are read from the "
+                              "wrong slot", f"{gs.module.rel}:{x.lineno}", stmt_key(x))
+                return
     idx = None
     for x in walk_no_nested(fn):
         if isinstance(x, ast.Assign) and isinstance(x.value, ast.Call) and call_name(
